@@ -491,7 +491,7 @@ func checkC08(r *Run) {
 	r3 := r.Rule("R-C08-3", "the established list: applied before each subscribe/unsubscribe request is issued; re-subscribed from a snapshot through the queued subscribe path; written nowhere else")
 	r4 := r.Rule("R-C08-4", "call order survives retransmission: subscribe/unsubscribe requests queue behind pending retries, Retry() processes ascending and re-queues [continuation, unattempted tail] in this order, Resubscribe precedes Retry")
 	r5 := r.Rule("R-C08-5", "no subscribe/unsubscribe request is lost: failures after registration carry a retry handle (also for a closed connection), the handle is queued, Retry keeps what it does not complete")
-	r3.Floor(4)
+	r3.Floor(3)
 	{
 		var subSites []*reqSite
 		for _, s := range c.sitesOrLost(r5) {
